@@ -7593,3 +7593,60 @@ def fn2(m, run, rule='FN2.facet-normal-is-the-edge-cross-product'):
         return None
     why = forked(make_sk, scenario, fi.key, max_paths=64)
     run.ob(rule, fi.key, why is None, 'a positive multiple of (v1 - v0) x (v2 - v1) on every path' if why is None else why, 'geomdl/linalg.py:%d in %s' % (fi.node.lineno, fi.key))
+
+
+# ====================================================================================== state of two new objects is disjoint
+def own2(m, run, classes, rule='OWN2.new-objects-share-no-mutable-state'):
+    """OWN2: every class is constructed twice by interpreting its own __init__ chain in one interpreter (class-level attributes are
+    evaluated once, as when the class body runs): no list or dictionary reachable from the attributes of the first object is reachable
+    from the second -- the cache dictionary, the option dictionary, the control points, knot vectors and every other container belong
+    to one object only, so what is cached or stored on one shape is never seen by another"""
+    for cls in classes:
+        key = '%s.%s' % cls
+        sk = SK(m, dict(STD_ABSTRACTED))
+        sk.construct = True
+        why = None
+        try:
+            args = [2, 3] if cls[0] == 'CPGen' else []
+            a = sk.apply(('class', cls), list(args), {}, None)
+            b = sk.apply(('class', cls), list(args), {}, None)
+            if not isinstance(a, Bag) or not isinstance(b, Bag) or a is b:
+                why = 'constructing the class twice does not give two objects'
+            else:
+                def reach(ob, skip=(), bags=None):
+                    seen, out, todo = set(), {}, [(ob, 'self')]
+                    while todo:
+                        x, path = todo.pop()
+                        if id(x) in seen or id(x) in skip:
+                            continue
+                        seen.add(id(x))
+                        if isinstance(x, Bag):
+                            if bags is not None:
+                                bags.add(id(x))
+                            for k_, v_ in x._a.items():
+                                if not k_.startswith('__'):
+                                    todo.append((v_, path + '.' + k_))
+                        elif isinstance(x, (list, set)):
+                            out[id(x)] = path
+                            if isinstance(x, list):
+                                for i_, y in enumerate(x[:50]):
+                                    todo.append((y, '%s[%d]' % (path, i_)))
+                        elif isinstance(x, dict):
+                            out[id(x)] = path
+                            for k_, y in x.items():
+                                todo.append((y, '%s[%r]' % (path, k_)))
+                    return out
+                # a helper object both shapes refer to (a stateless evaluator kept at module level, say) is not state of either shape
+                ba, bb = set(), set()
+                reach(a, bags=ba), reach(b, bags=bb)
+                ra_, rb_ = reach(a, skip=ba & bb), reach(b, skip=ba & bb)
+                both = [(ra_[i], rb_[i]) for i in ra_ if i in rb_]
+                if both:
+                    both.sort(key=lambda t: (len(t[0]), t[0]))
+                    why = '`%s` of one new object and `%s` of another are one and the same container: what is stored or cached on one shape shows up on every other' % both[0]
+        except Violation as v:
+            why = '%s %s' % (v.msg, v.where())
+        except Unsupported as ex:
+            raise AnalysisError('%s: interpreter met an unsupported construct: %s' % (key, ex))
+        ci = m.classes[cls]
+        run.ob(rule, key, why is None, 'two new objects reach disjoint lists and dictionaries' if why is None else why, 'geomdl/%s.py:%d class %s' % (cls[0], ci.node.lineno, cls[1]))
